@@ -312,7 +312,7 @@ func (g *G) nodedump(n, off int) structs.NodeDump {
 	for i := 0; i < n; i++ {
 		w := g.want(off + i)
 		if g.mode == "inner" {
-			t := true
+			t := g.n == 0 || !g.coin(0.15) // the node carrying the arrangement is sometimes unreadable itself
 			w = &t
 		}
 		l = append(l, g.nodeinfo(w, off+i == 0))
